@@ -58,3 +58,142 @@ func VerifC20First() {
 	vAssert(len(be.activeClients) == 0 && len(be.temporarySessions) == 0 && len(be.storedSessions) == 0, "no session was set up")
 	vCover("c20-first-end")
 }
+
+// VerifC20Auth: rejected credentials yield exactly one not-authorised CONNACK and nothing more.
+func VerifC20Auth() {
+	be := newRecBackend()
+	be.Credentials = map[string]string{"u": "p"}
+	user := vString("user", 2)
+	pass := vString("pass", 2)
+	con := mkConnect("c", vBool("clean"), &packet.Message{Topic: "will", Payload: []byte{1}, QOS: 0})
+	con.Username, con.Password = user, pass
+	c, conn := startClient(be, con, false)
+	good := user == "u" && pass == "p"
+	vAssert(conn.sentCount() >= 1, "a CONNACK is sent in either case")
+	if conn.sentCount() >= 1 {
+		ack, ok := conn.sentAt(0).(*packet.Connack)
+		vAssert(ok, "first packet sent is the CONNACK")
+		if ok {
+			if good {
+				vCover("c20-auth-accepted")
+				vAssert(ack.ReturnCode == packet.ConnectionAccepted, "valid credentials are accepted")
+				vAssert(!conn.isClosed(), "accepted connection stays open")
+			} else {
+				vCover("c20-auth-rejected")
+				vAssert(ack.ReturnCode == packet.NotAuthorized, "invalid credentials yield not-authorised")
+				vAssert(conn.sentCount() == 1, "nothing but the CONNACK is sent")
+				vAssert(conn.isClosed(), "connection closed after rejection")
+				vAssert(be.setups == 0 && be.subscribes == 0 && be.dequeues == 0 && len(be.terminates) == 0, "no session, no subscription, no delivery, no terminate")
+				vAssert(len(be.publishes) == 0, "no will is published for a rejected client")
+				vAssert(chanClosed(c.Closed()), "closed signal fires")
+				vAssert(vLive() == 0, "no goroutine left")
+			}
+		}
+	}
+	vAssert(countType(conn, packet.CONNACK) == 1, "exactly one CONNACK")
+	vCover("c20-auth-end")
+}
+
+// VerifC20Second: a second CONNECT or a server-only packet after acceptance closes the connection.
+func VerifC20Second() {
+	be := newRecBackend()
+	c, conn := startClient(be, mkConnect("c", true, nil), false)
+	vAssert(!conn.isClosed() && conn.sentCount() == 1, "accepted")
+	var bad packet.Generic
+	switch vChoice("bad", 5) {
+	case 0:
+		bad = mkConnect("c", true, nil)
+	case 1:
+		bad = packet.NewConnack()
+	case 2:
+		bad = &packet.Suback{ID: 1, ReturnCodes: []packet.QOS{0}}
+	case 3:
+		bad = &packet.Unsuback{ID: 1}
+	case 4:
+		bad = packet.NewPingresp()
+	}
+	conn.in <- bad
+	vQuiesce()
+	vAssert(conn.isClosed(), "out-of-protocol packet closes the connection")
+	vAssert(countType(conn, packet.CONNACK) == 1, "never more than one CONNACK")
+	vAssert(chanClosed(c.Closed()), "closed signal fires")
+	vAssert(be.terminatesOf(c) == 1, "backend told about the termination exactly once")
+	vAssert(vLive() == 0, "no goroutine left")
+	vCover("c20-second-end")
+}
+
+// VerifC20ReqResp: pipelined requests each get their response (same id, codes in request order).
+func VerifC20ReqResp() {
+	be := newRecBackend()
+	_, conn := startClient(be, mkConnect("c", true, nil), false)
+	K := vParam("K", 3)
+	type req struct {
+		kind int
+		id   packet.ID
+		qos  []packet.QOS
+	}
+	var reqs []req
+	for i := 0; i < 2; i++ {
+		kind := vChoice("kind", 3)
+		id := packet.ID(vU16("id"))
+		vAssume(id != 0)
+		r := req{kind: kind, id: id}
+		switch kind {
+		case 0:
+			s := packet.NewSubscribe()
+			s.ID = id
+			k := vLen("filters", 1, K)
+			for j := 0; j < k; j++ {
+				q := symQOS("q")
+				r.qos = append(r.qos, q)
+				s.Subscriptions = append(s.Subscriptions, packet.Subscription{Topic: string([]byte{'t', byte('0' + j)}), QOS: q})
+			}
+			conn.in <- s
+		case 1:
+			u := packet.NewUnsubscribe()
+			u.ID = id
+			u.Topics = []string{"t0"}
+			conn.in <- u
+		case 2:
+			conn.in <- packet.NewPingreq()
+		}
+		reqs = append(reqs, r)
+	}
+	vQuiesce()
+	vAssert(!conn.isClosed(), "valid requests keep the connection open")
+	vAssert(conn.sentCount() == 1+len(reqs), "one response per request, none duplicated")
+	// responses: match per kind in order
+	used := make([]bool, conn.sentCount())
+	for _, r := range reqs {
+		found := false
+		for i := 1; i < conn.sentCount() && !found; i++ {
+			if used[i] {
+				continue
+			}
+			switch p := conn.sentAt(i).(type) {
+			case *packet.Suback:
+				if r.kind == 0 && p.ID == r.id && len(p.ReturnCodes) == len(r.qos) {
+					same := true
+					for j := range r.qos {
+						if p.ReturnCodes[j] != r.qos[j] {
+							same = false
+						}
+					}
+					if same {
+						used[i], found = true, true
+					}
+				}
+			case *packet.Unsuback:
+				if r.kind == 1 && p.ID == r.id {
+					used[i], found = true, true
+				}
+			case *packet.Pingresp:
+				if r.kind == 2 {
+					used[i], found = true, true
+				}
+			}
+		}
+		vAssert(found, "every request has its own response with the same id and the requested codes in order")
+	}
+	vCover("c20-reqresp-end")
+}
